@@ -241,6 +241,10 @@ def _work(item):
                 check_layouts(H, out, stats)
             if kind in ("draw", "both"):
                 check_drawing(H, out, stats, _TIER)
+                F.detour(H)
+                k = len(out)
+                check_drawing(H, out, stats, "quick")
+                out[k:] = [(m, "[same object after remove+re-add of its first node and edge] " + msg) for m, msg in out[k:]]
         except RecursionError:
             raise
         except Exception as e:  # noqa: BLE001
